@@ -196,6 +196,9 @@ def _load_class(mod: ModuleInfo, node: ast.ClassDef) -> ClassInfo:
                 continue
             fi = FuncInfo(mod.file, f"{node.name}.{item.name}", item, node.name, mod, kind)
             ci.members[mg(item.name)] = ("func", fi)
+        elif isinstance(item, ast.ClassDef):
+            # nested class (e.g. IndependentCellTrainer.Unit): a class-valued attribute of the outer class
+            ci.members[item.name] = ("nested", _load_class(mod, item))
         elif isinstance(item, ast.Assign) and len(item.targets) == 1 and isinstance(item.targets[0], ast.Name):
             ci.members[mg(item.targets[0].id)] = ("assign", item.value)
         elif isinstance(item, ast.AnnAssign) and isinstance(item.target, ast.Name) and item.value is not None:
